@@ -249,6 +249,8 @@ let () =
               | 'V' -> if handle_varint c i opl res then bad := true
               | 'A' -> if C18p.handle_a c i opl res then bad := true
               | 'D' -> C18p.handle_d res
+              | 'N' -> if C18p.handle_n c i opl res then bad := true
+              | 'M' -> C18p.handle_m res
               | _ -> failwith ("unknown line " ^ l))
         c.lines;
       stat "cases" 1;
